@@ -421,9 +421,7 @@ class _AdversarialFairness(BaseEstimator):
             Array-like containing the sensitive features of the
             training data.
         """
-        first_call = not hasattr(self, "classes_")
-
-        X, y, A = self._validate_input(X, y, sensitive_features, first_call)
+        X, y, A = self._validate_input(X, y, sensitive_features, reinitialize=True)
 
         # Not checked in __setup, because partial_fit may not require it.
         if self.epochs == -1 and self.max_iter == -1:
@@ -703,7 +701,7 @@ class _AdversarialFairness(BaseEstimator):
         if (not is_fitted) or (reinitialize):
             self.__setup(X, y, A)
 
-        if not hasattr(self, "classes_"):
+        if reinitialize or not hasattr(self, "classes_"):
             self.classes_ = unique(y)
 
         y = self._y_transform.transform(y)
